@@ -51,6 +51,11 @@ def run(tier, seed, res, lean):
         for b in il_bad[:3]:
             res.violations.append(Violation('c12-index-levels', b['msg'][:400], {'suite': 'S-CRASH/index-levels', **b}))
         res.coverage['index_level_runs'] = il_runs
+        # a writer in the middle of a write while another user of the same root starts up / reads
+        co_runs, co_bad = suite_crash.run_concurrent_open(seed)
+        for b in co_bad[:3]:
+            res.violations.append(Violation('c12-concurrent-open', b['msg'][:400], {'suite': 'S-CRASH/concurrent-open', **b}))
+        res.coverage['concurrent_open_runs'] = co_runs
         res.coverage.update({
             'evaluations': len(jobs), 'distinct_nontrivial': checked, 'rule': RULE, 'programs': len(combos),
             'disagreements_checked': 0, 'exhaustive': True,
